@@ -10,6 +10,7 @@ mod c09;
 mod c10;
 mod c11;
 mod c12;
+mod c13;
 mod c14;
 mod c16;
 mod c17;
@@ -64,6 +65,7 @@ fn main() {
         "C06" => c06::main(&args),
         "C10" => c10::main(&args),
         "C12" => c12::main(&args),
+        "C13" => c13::main(&args),
         "C14" => c14::main(&args),
         "setup" => {
             // generate and build every quick-tier corpus so that the first quick check is fast
